@@ -3,8 +3,13 @@
 E2: depth-bounded exhaustive enumeration of operation histories on a real
 `Console(record=True)` with a non-recording twin console as reference.
 
-    state      = the event history; both consoles are rebuilt by replaying it on
-                 fresh objects (fresh StringIO files, fixed clock)
+    state      = the event history; the real console is rebuilt by replaying it on a
+                 fresh object (fresh StringIO file, fixed clock).  The twin replays only
+                 what can influence its later output (the log events: LogRender remembers
+                 the last time stamp) plus the judged event; the reference model of the
+                 prefix is carried along from the run that judged the prefix.  Histories of
+                 length <= 2 and every 64th one are additionally replayed in full lock-step
+                 and must give the same state and verdicts (machinery self-check).
     events     = print(7 text/style combinations) | log | rule(2) | line(1|2) | bell |
                  clear | show_cursor(F|T) | control("") | capture enter | capture exit |
                  export_text(clear=True, styles F|T) | export_html(clear=True, inline F|T)
@@ -36,10 +41,16 @@ E2: depth-bounded exhaustive enumeration of operation histories on a real
                  its shard is checked but not extended.  This is everything a Console
                  mutates in these events (theme stack and render hooks are untouched).
 
-Shards = configuration x first event; `states` is the sum of the per-shard distinct
-canonical states (a state reached under two first events is counted twice).
+Strata: "full" = all 23 events, depth <= 3 (quick) / <= 4 (thorough), 12 configurations;
+"core" = a 12-event core one level deeper (depth 4 quick on the six width-40
+configurations / depth 5 thorough on all 12).  Shards = configuration x first event
+(full) or x first two events (core); `states` is the sum of the per-shard distinct
+canonical states (a state reached under two first events is counted twice; core shards
+count only the histories of the additional depth).
 
-Measured on this sandbox: see describe().
+Measured on this sandbox while ~80 other processes were runnable on its 16 cores
+(wall times are therefore upper bounds): quick 166,827 histories, 1,630 outcome
+signatures, ~390 CPU-s (326 s wall with 6 workers); thorough: see describe()/evidence.
 """
 import html as _html
 import io
@@ -66,11 +77,11 @@ LEVEL_TEXT = ("Every history up to the depth bound over 23 events and 12 console
               "stated bounds; nothing is sampled.")
 LEVEL_NOTE = ("Trusted: CPython, vf/term.py (decoder), vf/refstyle.py, html.unescape + a tag regex, and the twin console as "
               "the definition of 'as it would have been written' (rendering itself is judged by C01-C09/C03). "
-              "Bounds: history depth 3 (quick) / 4 full + 5 over a 12-event core (thorough); 7 print payloads; captures not nested; "
-              "single thread.")
+              "Bounds: history depth 3 over 23 events + depth 4 over a 12-event core (quick) / depth 4 + depth 5 (thorough); "
+              "7 print payloads; captures not nested; single thread.")
 
 # ------------------------------------------------------------------ alphabet
-TEXTS = ["a", "<&>", "[b]x[/b] y", "[link=http://x.y/?q=1&r=2]l[/link]k", "a\nb"]
+TEXTS = ["a", "&lt;<&>", "[b]x[/b] y", "[link=http://x.y/?q=1&r=2]l[/link]k", "a\nb"]
 STYLES = [None, "bold #ff8700 on blue"]
 RULE_TITLES = ["", "t<"]
 
@@ -84,7 +95,7 @@ EVENTS = (
     + [("rule", 0), ("rule", 1)]
     + [("log",)]
 )
-# the 12-event core used for the deepest stratum of the thorough tier
+# the 12-event core explored one level deeper than the full alphabet
 CORE = [("print", 0, 0), ("print", 1, 0), ("print", 3, 0), ("print", 2, 1), ("line", 1), ("bell",),
         ("begin",), ("end",), ("xtext", False), ("xhtml", True), ("rule", 1), ("log",)]
 
@@ -361,7 +372,9 @@ class Run:
                      % (inline, how, got, want, _first_diff(got, want)))
 
     def observe(self):
-        """the four non-clearing exports, each followed by a state comparison"""
+        """the four non-clearing exports, each followed by a state comparison.  Judged in the
+        order plain text, styled text, HTML; a later one is judged only when the plain export
+        agreed (a record that differs from what was written is one defect, not three)."""
         real = self.real
         before = self.canon()
         try:
@@ -371,13 +384,18 @@ class Run:
                     self.bad("export/clear-true-left-record",
                              "after an export with clear=True a second export_text() returns %r" % again[:80])
                     return before
-            for styles in (False, True):
-                ref = _record_cells(real._record_buffer) if styles else None
-                out = real.export_text(clear=False, styles=styles)
-                self.judge_text(out, styles, "clear=False", ref)
+            n = len(self.problems)
+            out = real.export_text(clear=False, styles=False)
+            self.judge_text(out, False, "clear=False")
+            plain_ok = len(self.problems) == n
+            ref = _record_cells(real._record_buffer)
+            out = real.export_text(clear=False, styles=True)
+            if plain_ok:
+                self.judge_text(out, True, "clear=False", ref)
             for inline in (False, True):
                 out = real.export_html(clear=False, inline_styles=inline)
-                self.judge_html(out, inline, "clear=False")
+                if plain_ok:
+                    self.judge_html(out, inline, "clear=False")
         except Exception as exc:     # noqa: BLE001
             self.bad(_crash_key(exc), "%s: %s" % (type(exc).__name__, exc))
             return before
@@ -475,10 +493,10 @@ def _signature(run, hist):
     return sig, nontrivial
 
 
-def _check(cfg, hist, res, model=None):
+def _check(cfg, hist, res, model=None, counted=True):
     run, canon = run_history(cfg, hist, model)
     res.evaluations += 1
-    res.count("transitions", 1 if hist else 0)
+    res.count("transitions", 1 if hist and counted else 0)
     res.count("events_executed_including_replays", len(hist))
     if model is not None and (len(hist) <= 2 or res.evaluations % 64 == 0):
         # self-check of the fast path: full lock-step replay must give the same state and verdicts
@@ -496,7 +514,12 @@ def _check(cfg, hist, res, model=None):
 
 def _depths(tier):
     """-> (full-alphabet depth, core-alphabet depth)"""
-    return (3, 0) if tier == "quick" else (4, 5)
+    return (3, 4) if tier == "quick" else (4, 5)
+
+
+def _core_configs(tier):
+    """quick explores the core stratum on the width-40 configurations only"""
+    return range(6) if tier == "quick" else range(len(CONFIGS))
 
 
 def plan(tier, seed):
@@ -506,25 +529,29 @@ def plan(tier, seed):
         for fi in range(len(EVENTS)):
             shards.append({"cfg": ci, "first": fi, "alpha": "full"})
     if _depths(tier)[1]:
-        for ci in range(len(CONFIGS)):
+        for ci in _core_configs(tier):
             for fi in range(len(CORE)):
                 for si in range(len(CORE)):
                     shards.append({"cfg": ci, "first": fi, "second": si, "alpha": "core"})
     return shards
 
 
-def _explore(cfg, root, alphabet, maxdepth, res):
-    """BFS by levels below the root history (which is itself judged, in lock-step)."""
+def _explore(cfg, root, alphabet, maxdepth, res, count_from=1):
+    """BFS by levels below the root history (which is itself judged, in lock-step).
+    Histories shorter than count_from are executed and judged again but belong to another
+    stratum: they are left out of `states` / `transitions`."""
     _, c0 = run_history(cfg, [])
     seen = {hash(c0)}
     frontier = []
     maxd = 0
+    nstates = 0
     # prefixes of the root were judged by another shard; here they only have to be replayable
-    run, canon = _check(cfg, root, res)
+    run, canon = _check(cfg, root, res, counted=len(root) >= count_from)
     if canon is not None and hash(canon) not in seen:
         seen.add(hash(canon))
         frontier.append((root, run.model()))
         maxd = len(root)
+        nstates += len(root) >= count_from
     elif canon is not None:
         res.count("histories_reaching_seen_state")
     depth = len(root)
@@ -539,7 +566,8 @@ def _explore(cfg, root, alphabet, maxdepth, res):
                 if not enabled(ev, is_open):
                     continue
                 h2 = h + [ev]
-                run, canon = _check(cfg, h2, res, model)
+                counted = len(h2) >= count_from
+                run, canon = _check(cfg, h2, res, model, counted)
                 if canon is None:
                     continue
                 hc = hash(canon)
@@ -549,18 +577,31 @@ def _explore(cfg, root, alphabet, maxdepth, res):
                 seen.add(hc)
                 nxt.append((h2, run.model()))
                 maxd = len(h2)
+                nstates += counted
         if res.capped:
             break
         frontier = nxt
         depth += 1
-    res.count("frontier_at_depth_cap", len(frontier))
-    res.count("states", len(seen) - 1)
+    if not res.capped:
+        res.count("frontier_at_depth_cap", len(frontier))
+        if frontier:
+            res.sample({"config": list(cfg), "history": [list(e) for e in frontier[len(frontier) // 2][0]]}, limit=1)
+    res.count("states", nstates)
     res.counters["max_depth"] = max(res.counters.get("max_depth", 0), maxd)
     return seen
 
 
+def _cold_caches():
+    """Style.parse hands out shared Style objects and a Style memoises its SGR string without the
+    colour system (that is C03's business); start every shard / replay with fresh objects."""
+    from rich.style import Style
+    Style.parse.cache_clear()
+    _SK.clear()
+
+
 def run_shard(sh, tier, seed):
     res = Result()
+    _cold_caches()
     cfg = CONFIGS[sh["cfg"]]
     full_d, core_d = _depths(tier)
     if sh["alpha"] == "full":
@@ -570,12 +611,10 @@ def run_shard(sh, tier, seed):
             res.count("states")            # the initial state, counted once per configuration
         if enabled(first, False):
             _explore(cfg, [first], EVENTS, full_d, res)
-            if sh["first"] % 7 == 0:
-                res.sample({"config": list(cfg), "history": [list(first), list(EVENTS[(sh["first"] + 5) % len(EVENTS)])]})
     else:
         first, second = CORE[sh["first"]], CORE[sh["second"]]
         if enabled(first, False) and enabled(second, first[0] == "begin"):
-            _explore(cfg, [first, second], CORE, core_d, res)
+            _explore(cfg, [first, second], CORE, core_d, res, count_from=full_d + 1)
     return res
 
 
@@ -587,7 +626,9 @@ def describe(tier, seed, res):
             "export_html(clear=True, inline F|T), rule('' | 't<'), log) x %d configurations (color_system None|standard|"
             "truecolor x terminal or not x width 40|10)" % (full_d, len(EVENTS), len(CONFIGS)))
     if core_d:
-        rule += "; plus all histories of length <= %d over a %d-event core" % (core_d, len(CORE))
+        rule += ("; plus all histories of length %d over a %d-event core (print a / escapes / link / styled markup, "
+                 "line, bell, capture enter/exit, export_text(clear), export_html(clear, inline), rule('t<'), log) on %d "
+                 "configurations" % (core_d, len(CORE), len(_core_configs(tier))))
     rule += (". After every history the file, the capture result, a clearing export's return value and the four "
              "non-clearing exports are judged. A history reaching a canonical state already seen in its shard is "
              "judged but not extended. A history is non-trivial when something visible or a control code was "
@@ -602,7 +643,8 @@ def describe(tier, seed, res):
             "HTML export: text only (tags stripped, entities decoded, <pre> body); CSS and anchors are not judged",
             "capture blocks are not nested; export inside an open block sees only what was flushed before",
             "canonical state = (file, record segments, thread buffer, buffer depth, LogRender._last_time, reference model); theme stack and render hooks are not touched by these events",
-            "states = sum over shards (configuration x first event) of distinct canonical states",
+            "states = sum over shards (configuration x first event[s]) of distinct canonical states; core shards count only histories of the additional depth",
+            "the twin replays only the prefix's log events before the judged event (nothing else changes what a non-recording console writes later); self-checked against full lock-step replay on all histories of length <= 2 and every 64th one",
         ],
         "coverage": {
             "states": c.get("states", 0),
@@ -620,5 +662,6 @@ def describe(tier, seed, res):
 def replay(case):
     cfg = tuple(case["config"])
     hist = [tuple(e) for e in case["history"]]
+    _cold_caches()
     run, _ = run_history(cfg, hist)
     return list(run.problems)
